@@ -236,7 +236,8 @@ def run(repo: Repo, rep: Report, tier: str) -> None:
                 pre[nm] = cev.name(nm)
             except (_Unknown, Exception):
                 pass
-    shapes = [None, "", "ABC", "A*C", "A?C", "2020-2021", "-2021", "1.2.3", ["1.2", "1.3"]]
+    # 0 and 7: an IS key decodes to pydicom's IS, an int subclass - 0 is a legal, falsy, non-empty key
+    shapes = [None, "", "ABC", "A*C", "A?C", "2020-2021", "-2021", "1.2.3", ["1.2", "1.3"], 0, 7]
     # the supported attributes with the VR the DICOM data dictionary gives them (that is the VR a decoded
     # element of that keyword has): the matching type must follow *that* VR, wherever the code takes it from
     points = [(vr, val, "K") for vr, val in itertools.product(VRS, shapes)]
@@ -259,6 +260,8 @@ def run(repo: Repo, rep: Report, tier: str) -> None:
     bad = 0
     for vr, val, kw in points:
         if isinstance(val, list) and vr != "UI":
+            continue
+        if isinstance(val, int) and vr != "IS":
             continue
         if kw == "K" and isinstance(attrs, dict):
             # a synthetic keyword cannot index the attribute table; the keyword sweep covers that code
